@@ -648,10 +648,24 @@ def gen_store(pid, tier, seed, scale, rng, hists, stats):
         for _ in range((100 if q else 1000) * scale):
             hists.append(sg.random_store_history(rng, rng.randint(10, 60)))
             stats["random storage histories"] += 1
+        for _ in range((25 if q else 250) * scale):
+            hists.append(sg.mid_history(rng))
+            stats["indices around 4096"] += 1
+        for _ in range((150 if q else 1500) * scale):
+            hists.append(sg.atomic_frame_history(rng))
+            stats["atomic creations, same-frame deletions"] += 1
     if pid == "C12":
         for _ in range((600 if q else 6000) * scale):
             hists.append(sg.events_history(rng, rng.randint(15, 80 if q else 200)))
             stats["event histories"] += 1
+        # mutable access through joins and restricted items, with readers and the emission switch
+        for focus in ("join", "restrict"):
+            for _ in range((100 if q else 1200) * scale):
+                hists.append(jg.join_history(rng, rng.randint(8, 30), focus))
+                stats["%s-focused join histories" % focus] += 1
+        for _ in range((60 if q else 600) * scale):
+            hists.append(sg.atomic_frame_history(rng))
+            stats["atomic creations on recycled indices"] += 1
     if pid == "C09":
         for _ in range((900 if q else 9000) * scale):
             hists.append(sg.lazy_history(rng, rng.randint(8, 45 if q else 120)))
@@ -727,6 +741,12 @@ def gen_store(pid, tier, seed, scale, rng, hists, stats):
         for _ in range((200 if q else 2000) * scale):
             hists.append(sg.random_store_history(rng, rng.randint(10, 60)))
             stats["random storage histories"] += 1
+        for sid in (rng.sample(range(16), 10) if q else list(range(16)) * 4):
+            hists.append(sg.mid_history(rng, [sid]))
+            stats["indices around 4096"] += 1
+        for _ in range((120 if q else 1200) * scale):
+            hists.append(sg.atomic_frame_history(rng))
+            stats["atomic creations on recycled indices"] += 1
 
 
 FAR_OK = True
